@@ -14,8 +14,14 @@ const (
 	TwinBase    = NumTypes
 	ErrIface    = NumTypes + 2 // the interface type `error`
 	ErrImpl     = NumTypes + 3 // TE, a token-carrying implementation of error
-	NumTypesAll = NumTypes + 4
+	SliceDef    = NumTypes + 4 // B0, a defined slice type (token in element 0)
+	SliceRaw    = NumTypes + 5 // []uint64, the unnamed type B0 is built on (used in filters only)
+	NumTypesAll = NumTypes + 6
 )
+
+// B0 is a defined type over an unnamed composite type: B0 values are
+// assignable to []uint64 and vice versa, yet the two are different types.
+type B0 []uint64
 
 // TE is a provenance-carrying value that implements error. It is used only in
 // C10's "convert to error" histories.
@@ -24,7 +30,7 @@ type TE struct{ ID uint64 }
 func (e TE) Error() string { return fmt.Sprintf("TE#%d", e.ID) }
 
 func init() {
-	Types = append(Types, reflect.TypeOf(alt.T0{}), reflect.TypeOf(alt.T1{}), reflect.TypeOf((*error)(nil)).Elem(), reflect.TypeOf(TE{}))
+	Types = append(Types, reflect.TypeOf(alt.T0{}), reflect.TypeOf(alt.T1{}), reflect.TypeOf((*error)(nil)).Elem(), reflect.TypeOf(TE{}), reflect.TypeOf(B0{}), reflect.TypeOf([]uint64{}))
 	for i, t := range Types {
 		simrt.RegisterType(t, i)
 	}
@@ -42,6 +48,9 @@ func Implements(s, p int) bool {
 		return false
 	}
 	if s >= TwinBase && s != ErrImpl {
+		return false
+	}
+	if p >= TwinBase && p != ErrIface {
 		return false
 	}
 	return Types[s].Implements(Types[p])
@@ -92,6 +101,10 @@ func MakeValue(t int, id uint64) interface{} {
 		return alt.T1{ID: id}
 	case t == ErrImpl:
 		return TE{ID: id}
+	case t == SliceDef:
+		return B0{id}
+	case t == SliceRaw:
+		return []uint64{id}
 	default:
 		return MakeValue(Implementors(t)[0], id)
 	}
@@ -119,6 +132,12 @@ func Decode(v reflect.Value) (id uint64, dyn int, ok bool) {
 			return 0, dyn, true
 		}
 		v = v.Elem()
+	}
+	if v.Kind() == reflect.Slice {
+		if v.Len() == 0 {
+			return 0, dyn, true
+		}
+		return v.Index(0).Uint(), dyn, true
 	}
 	return v.Field(0).Uint(), dyn, true
 }
